@@ -71,6 +71,10 @@ theorem slice_blocks_tile (lengths : List Nat) (start stop step : Int) (hs : 0 <
   congr 1
   omega
 
+/-- non-vacuity: `x[1:9:3]` on chunks (4, 3, 5) — blocks select [1], [4], [7] -/
+example : ((locations [4, 3, 5]).map fun (l0, l1) => blockPositions 1 9 3 l0 l1) = [[1], [4], [7]] ∧
+    rangeUp 1 9 3 = [1, 4, 7] := by decide
+
 /-- The value pieces are consecutive: what precedes the end of a block is what precedes its start plus
     what the block takes. With `slice_blocks_tile` they cover `0 … len(selection)` exactly once. -/
 theorem value_slices_partition (start stop step loc0 loc1 : Int) (hs : 0 < step) (hl : loc0 ≤ loc1) :
@@ -89,6 +93,10 @@ theorem value_slices_partition (start stop step loc0 loc1 : Int) (hs : 0 < step)
   · have e : firstGe start step loc0 = start := by unfold firstGe; simp; omega
     rw [e, rangeUp_nil (by omega : min stop loc0 ≤ start)]
     simp
+
+/-- non-vacuity: `x[1:12:3]` on the block [7, 12): two selected positions before the block, two inside -/
+example : (rangeUp 1 (min 12 12) 3).length = 4 ∧ (rangeUp 1 (min 12 7) 3).length = 2 ∧
+    (blockPositions 1 12 3 7 12).length = 2 := by decide
 
 /-- **1-d slice assignment, end to end on the plan.** `V` is the value as the blocks read it: the value itself
     for an increasing slice, the mirrored value for a decreasing one (`reversed_value_piece`: the piece
@@ -147,6 +155,11 @@ example : valueIndicesInt [5, 0, 5, 2] 4 7 = [0, 2] ∧ blockIndexInt [5, 0, 5, 
 theorem bool_pieces_chain (mask : List Bool) (l0 l1 : Nat) (h : l0 ≤ l1) :
     countTrue (mask.take l1) = (blockBool mask l0 l1).2.2 + (blockBool mask l0 l1).2.1 :=
   blockBool_chain mask l0 l1 h
+
+/-- non-vacuity: mask T F T T F on the block [2, 4): 2 `True` before the block's end, 1 before its start, 1 inside -/
+example : blockBool [true, false, true, true, false] 2 4 = ([true, true], 2, 1) ∧
+    countTrue ([true, false, true, true, false].take 4) = 3 := by decide
+example : ∃ p ∈ locations [4, 3, 5], p.1 ≤ 6 ∧ 6 < p.2 := ⟨(4, 7), by decide, by decide, by decide⟩
 
 /-! ## reversed axes -/
 
